@@ -1,8 +1,8 @@
-(* C18 — the EBU STL reader's GSI / TTI guards: outside the three recorded triggers the only failures are struct.error and
-   whatever tf.to_model (the oracle) raises *)
+(* C18 — the EBU STL reader's GSI / TTI guards: on every byte list under every configuration the only failures are struct.error
+   and whatever tf.to_model (the oracle) raises *)
 From TT Require Import Base.Prelude Model.Outcome Model.ReaderGuards Proofs.C18.Srt.
 
-(* what DataFile.__init__ establishes when the trigger does not fire, and what every block preserves *)
+(* what DataFile.__init__ establishes (lab commit 7e042d3: a row count below 1 is replaced by the default), and what every block preserves *)
 Definition stl_inv (v : stl_vars) : Prop := exists rows, t_rows v = Some rows /\ rows <> 0.
 
 Lemma stl_block_step v b :
@@ -52,41 +52,59 @@ Proof.
   - subst. exact S.
 Qed.
 
-Lemma stl_run_internal cfg oracle file k :
-  trig_zero_rows cfg (firstn 1024 file) = false ->
-  stl_run cfg oracle file = Internal k -> In (SubInternal k) oracle.
+(* DataFile.__init__ leaves a row count of at least 1 whatever the GSI block and the configuration say *)
+Lemma stl_header_rows cfg gsi h : stl_header cfg gsi = inl h -> exists rows, h_rows h = Some rows /\ rows <> 0.
 Proof.
-  intros T2. unfold stl_run, stl_init.
-  set (gsi := firstn 1024 file) in *.
-  destruct (stl_header cfg gsi) as [h|o] eqn:Hd.
-  - intro E. change oracle with (t_oracle (stl_vars_of h oracle)). eapply stl_loop_internal; eauto.
-    unfold stl_inv. simpl.
-    unfold stl_header in Hd. destruct (negb (Z.of_nat (length gsi) =? 1024)); [discriminate|].
-    unfold trig_zero_rows in T2.
-    match type of Hd with (match ?st with inl _ => _ | inr _ => _ end) = _ => destruct st as [off|o] eqn:St; [|discriminate] end.
-    destruct (cfg_rows cfg) as [| |n] eqn:Rw.
-    + inversion Hd; subst; simpl in *. exists 23; split; [reflexivity|lia].
-    + destruct (gsi_teletext gsi); simpl in T2.
-      * inversion Hd; subst; simpl in *. exists 23; split; [reflexivity|lia].
-      * destruct (bytes_int (slice 253 2 gsi)) as [n|].
-        -- inversion Hd; subst; simpl in *. exists n; split; [reflexivity|apply Z.eqb_neq; exact T2].
-        -- inversion Hd; subst; simpl in *. exists 23; split; [reflexivity|lia].
-    + destruct (gsi_teletext gsi); simpl in T2.
-      * inversion Hd; subst; simpl in *. exists 23; split; [reflexivity|lia].
-      * inversion Hd; subst; simpl in *. exists n; split; [reflexivity|apply Z.eqb_neq; exact T2].
-  - (* DataFile.__init__ raises nothing but struct.error *)
-    intro E. subst. exfalso.
-    unfold stl_header in Hd. destruct (negb (Z.of_nat (length gsi) =? 1024)); [discriminate|].
-    destruct (cfg_start cfg); [| destruct (gsi_tcp_ints gsi) as [[[[h0 m] s] f]|] |];
-      (destruct (cfg_rows cfg) as [| |n]; [discriminate| |]; destruct (gsi_teletext gsi); try discriminate;
-       destruct (bytes_int (slice 253 2 gsi)); discriminate).
+  unfold stl_header. destruct (negb (Z.of_nat (length gsi) =? 1024)); [discriminate|].
+  match goal with |- (match ?st with inl _ => _ | inr _ => _ end) = _ -> _ => destruct st as [off|o]; [|discriminate] end.
+  assert (Clamp : forall r : option Z, (exists n, r = Some n) ->
+            exists rows, (match r with Some n => if n <? 1 then Some 23 else Some n | None => None end) = Some rows /\ rows <> 0).
+  { intros r [n E]; subst. destruct (n <? 1) eqn:L; [exists 23; split; [reflexivity|lia]|exists n; split; [reflexivity|lia]]. }
+  destruct (cfg_rows cfg) as [| |n].
+  - intro E; inversion E; subst; cbn [h_rows]. exact (Clamp (Some 23) (ex_intro _ 23 eq_refl)).
+  - destruct (gsi_teletext gsi).
+    + intro E; inversion E; subst; cbn [h_rows]. exact (Clamp (Some 23) (ex_intro _ 23 eq_refl)).
+    + destruct (bytes_int (slice 253 2 gsi)) as [n|]; intro E; inversion E; subst; cbn [h_rows];
+        [exact (Clamp (Some n) (ex_intro _ n eq_refl))|exact (Clamp (Some 23) (ex_intro _ 23 eq_refl))].
+  - destruct (gsi_teletext gsi); intro E; inversion E; subst; cbn [h_rows];
+      [exact (Clamp (Some 23) (ex_intro _ 23 eq_refl))|exact (Clamp (Some n) (ex_intro _ n eq_refl))].
 Qed.
 
-Lemma stl_partial cfg oracle file :
-  trig_zero_rows cfg (firstn 1024 file) = false ->
+(* DataFile.__init__ raises nothing but struct.error *)
+Lemma stl_header_not_internal cfg gsi o : stl_header cfg gsi = inr o -> o = FormatError StructErr.
+Proof.
+  unfold stl_header. destruct (negb (Z.of_nat (length gsi) =? 1024)); [intro E; inversion E; reflexivity|].
+  destruct (cfg_start cfg); [| destruct (gsi_tcp_ints gsi) as [[[[h0 m] s] f]|] |];
+    (destruct (cfg_rows cfg) as [| |n]; [discriminate| |]; destruct (gsi_teletext gsi); try discriminate;
+     destruct (bytes_int (slice 253 2 gsi)); discriminate).
+Qed.
+
+(* every byte list, every reader configuration *)
+Lemma stl_run_internal cfg oracle file k :
+  stl_run cfg oracle file = Internal k -> In (SubInternal k) oracle.
+Proof.
+  unfold stl_run, stl_init.
+  destruct (stl_header cfg (firstn 1024 file)) as [h|o] eqn:Hd.
+  - intro E. change oracle with (t_oracle (stl_vars_of h oracle)). eapply stl_loop_internal; eauto.
+    unfold stl_inv. simpl. eapply stl_header_rows; eauto.
+  - intro E. subst. apply stl_header_not_internal in Hd. discriminate.
+Qed.
+
+Lemma stl_total cfg oracle file :
   (forall r, In r oracle -> sub_is_internal r = false) ->
   is_internal (stl_run cfg oracle file) = false.
 Proof.
-  intros T2 H. destruct (stl_run cfg oracle file) eqn:E; try reflexivity.
-  apply stl_run_internal in E; auto. apply H in E. discriminate.
+  intros H. destruct (stl_run cfg oracle file) eqn:E; try reflexivity.
+  apply stl_run_internal in E. apply H in E. discriminate.
+Qed.
+
+(* a file that is not 1024 + 128 n bytes long is a struct.error whatever else it holds, unless an earlier block already ended the
+   read; a file of the right shape never is *)
+Lemma stl_short_header cfg oracle file :
+  (length file < 1024)%nat -> stl_run cfg oracle file = FormatError StructErr.
+Proof.
+  intro L. unfold stl_run, stl_init, stl_header.
+  assert (E : Z.of_nat (length (firstn 1024 file)) =? 1024 = false).
+  { apply Z.eqb_neq. rewrite firstn_length. lia. }
+  rewrite E. reflexivity.
 Qed.
